@@ -165,7 +165,7 @@ def run_check(prop, tier, seed, timeout, verbose):
         failing_units.setdefault(ob.unit, []).append(ob)
     reported_native = set()
     for unit, obs in failing_units.items():
-        nat = native.get("targets", {}).get(unit)
+        nat = native.get("targets", {}).get(unit) or native.get("targets", {}).get(unit.split("#")[0])
         fails = nat["failures"] if nat else []
         new_fails = []
         for f in fails:
@@ -266,7 +266,8 @@ def write_replay(replay_dir, prop, unit, obs, failure, index):
     os.makedirs(replay_dir, exist_ok=True)
     tag = hashlib.sha256((unit + json.dumps(failure, sort_keys=True, default=str) +
                           "".join(o.name for o in obs)).encode()).hexdigest()[:12]
-    path = os.path.join(replay_dir, f"{unit.split(':')[1].replace('.', '_')}_{tag}.json")
+    safe = "".join(c if c.isalnum() else "_" for c in unit.split(":")[1])
+    path = os.path.join(replay_dir, f"{safe}_{tag}.json")
     rep = {
         "property": prop,
         "function": unit,
